@@ -274,7 +274,7 @@ Fixpoint build (c : con) (obj : val) (cx : ctx) (p : path) (o : ostream) {struct
       let enc_of (cps : list N) :=
         match cps with
         | [] => Ok (VBytes [])
-        | _ => match encode enc cps with Some d => Ok (VBytes d) | None => raise_np EString end
+        | _ => match encode enc cps with Some d => Ok (VBytes d) | None => raise EString p end
         end in
       let* obj2 := match obj with
                    | VStr cps => enc_of cps
